@@ -28,6 +28,14 @@
 (*              returned; the callback returned.  Notify events in between *)
 (*              are notifications delivered after the callback selected    *)
 (*              its victim and before it applied FAILED                    *)
+(*   CbRegistry what, name, scope / PilotRegister pilot: callbacks are     *)
+(*              registered / unregistered (no task changes state).  Every  *)
+(*              task's tpost carries regs = <<name, m, seen>>*: application *)
+(*              callback objects registered for the task when the event    *)
+(*              started, through m registrations, and the states each was  *)
+(*              told during the event.  T.bulk: bulk dispatch (one call    *)
+(*              per callback and batch with the tasks that changed; the    *)
+(*              announced state is the task's state at that time).         *)
 (*   ApiCall name / ServiceInfo uid, info / PilotCancel pilot: application *)
 (*              calls and the service_up handler: no task changes state    *)
 (*   SubmitBegin uids, pilot / SubmitEnd: submit_tasks for tasks early     *)
@@ -114,6 +122,23 @@ AtOK(n, cbs, at) ==
 
 Sync(s0, s1, d) == (Len(d) = 0 /\ s1 = s0) \/ (Len(d) > 0 /\ d[Len(d)] = s1)
 
+(* ---- every registered callback is told what the recorder is told ---------- *)
+\* m registrations of one callback object for a task: per state dispatch calls
+\* it once per registration, bulk dispatch once
+Expect(cbs, m) ==
+  LET k == IF T.bulk THEN 1 ELSE m IN
+  [i \in 1 .. k * Len(cbs) |-> cbs[((i - 1) \div k) + 1]]
+
+RegErrs(o) ==
+  UNION {LET seen == o.regs[i][3]
+             want == Expect(o.cbs, o.regs[i][2]) IN
+         IF seen = want THEN {}
+         ELSE IF Len(seen) < Len(want) THEN {"C06.GapsFilled"}      \* not told / states skipped
+         ELSE IF Len(seen) > Len(want) THEN {"C06.AtMostOnce"}      \* told more than once
+         ELSE {"C06.Monotone"}                                      \* told something else
+         : i \in 1 .. Len(o.regs)}
+  \cup (IF o.stale > 0 THEN {"N.UnregisteredCallbackCalled"} ELSE {})
+
 (* ---- C06 clauses on the callback log of one task ------------------------ *)
 LogErrs(t, o) ==
   LET log1 == cbLog[t] \o o.cbs IN
@@ -121,7 +146,9 @@ LogErrs(t, o) ==
   \* a callback is not contradicted by Task.state read inside it
   \cup E(AtOK(NT, o.cbs, o.at), "C06.CbAgrees")
   \cup E(AtMostOnceLog(log1),   "C06.AtMostOnce")
-  \cup E(GapsFilledLog(NT, log1), "C06.GapsFilled")
+  \* (bulk dispatch announces where a task stands after the batch, not the way there)
+  \cup E(T.bulk \/ GapsFilledLog(NT, log1), "C06.GapsFilled")
+  \cup RegErrs(o)
 
 NotifyErrs(e, batch) ==
   LET ref == TRes(FALSE, batch, tstate)
@@ -135,7 +162,8 @@ NotifyErrs(e, batch) ==
                      /\ e.iso[k].post[t].st  = e.tpost[t].st
                      /\ e.iso[k].post[t].cbs = e.tpost[t].cbs, "C06.BatchIsolation")
       stated == UNION {perTask(t) : t \in Uids} \cup isoErr
-      same(r) == \A t \in Uids : /\ e.tpost[t].st = r.st[t] /\ e.tpost[t].cbs = r.cb[t]
+      refCb(r, t) == IF T.bulk THEN (IF r.st[t] # tstate[t] THEN <<r.st[t]>> ELSE <<>>) ELSE r.cb[t]
+      same(r) == \A t \in Uids : /\ e.tpost[t].st = r.st[t] /\ e.tpost[t].cbs = refCb(r, t)
                                  /\ e.tpost[t].tcbs = e.tpost[t].cbs
       \* the stated clauses fix the shape of the announcements between the
       \* states before and after the batch; what remains is where the task ends
@@ -336,7 +364,8 @@ Step ==
           [] e.ev = "DeathApply" ->
                /\ errs' = errs \cup Always(e) \cup ApplyErrs(e, e.pilot, e.uid)
                /\ UNCHANGED <<bound, added, sel, nb0>>
-          [] e.ev \in {"ApiCall", "ServiceInfo", "PilotCancel", "SubmitBegin"} ->
+          [] e.ev \in {"ApiCall", "ServiceInfo", "PilotCancel", "SubmitBegin", "CbRegistry",
+                      "PilotRegister"} ->
                /\ errs' = errs \cup Always(e) \cup Untouched(e, {})
                             \cup (IF e.raised THEN {"N.CallRaised"} ELSE {})
                /\ UNCHANGED <<bound, added, sel, nb0>>
@@ -364,7 +393,12 @@ Step ==
                \* see it final (Pilot.state), whether or not the state callbacks
                \* ran: an exception between the two leaves its tasks unfailed
                \* C13 speaks of the pilots the task manager was given (add_pilots)
-               LET died == {p \in Pids : ~IsFinal(NP, pstate[p]) /\ IsFinal(NP, e.ppost[p].st)}
+               \* ... or when its final notification was delivered (what the code
+               \* makes of the batch: the first pilot entry, see D19): a final state
+               \* reached over a gap must not be lost on the client
+               LET told == PRes(TRUE, FALSE, e.batch, pstate).st
+                   died == {p \in Pids : ~IsFinal(NP, pstate[p])
+                                         /\ (IsFinal(NP, e.ppost[p].st) \/ IsFinal(NP, told[p]))}
                    all  == e.calls \o SetToSeq(died \ SeqToSet(e.calls))
                    ends == SelectSeq(all, LAMBDA q : q \in added) IN
                /\ errs' = errs \cup Always(e) \cup PNotifyErrs(e)
